@@ -200,3 +200,82 @@ func racingCallers(c *Ctx, rounds, callers int) {
 	}
 	c.DistinctCase("racing-callers")
 }
+
+// concurrentCloses: Close() of one object called by eight goroutines at the
+// same instant (released together, real parallelism), for a monitor, a
+// subscription, a filtered subscription and a clone on a hand-driven source,
+// many rounds: no panic (a check-then-close in Close() closes a channel twice),
+// every caller returns, the object is done, the source keeps running.
+func concurrentCloses(c *Ctx, rounds int) {
+	what := fmt.Sprintf("Close() of one monitor / subscription / filtered subscription / clone by eight goroutines at the same instant, %d rounds", rounds)
+	c.Now(what)
+	var problems []string
+	dl := sched.Bubble(c.T, func() {
+		ctx, cancel := context.WithCancel(context.Background())
+		defer cancel()
+		src := kcache.NewVerifSource(ctx, qlog.Silent(), (&Filt{Tag: FNull}).Go())
+		src.MakeReady()
+		for r := 0; r < rounds && len(problems) == 0; r++ {
+			type closer struct {
+				name  string
+				close func()
+				done  <-chan struct{}
+			}
+			var objs []closer
+			if m, err := kcache.NewMonitor(src, kcache.BuildHandler().Create()); err == nil {
+				objs = append(objs, closer{"monitor", m.Close, m.Done()})
+			}
+			if s, err := src.Subscribe(); err == nil {
+				objs = append(objs, closer{"subscription", s.Close, s.Done()})
+			}
+			if s, err := src.SubscribeWithFilter((&Filt{Tag: FNull}).Go()); err == nil {
+				objs = append(objs, closer{"filtered subscription", s.Close, s.Done()})
+			}
+			if cl, err := src.Clone(); err == nil {
+				objs = append(objs, closer{"clone", cl.Close, cl.Done()})
+			}
+			if len(objs) != 4 {
+				problems = append(problems, "could not create the objects on a running source")
+				break
+			}
+			start := make(chan struct{})
+			var wg sync.WaitGroup
+			for _, o := range objs {
+				for k := 0; k < 8; k++ {
+					wg.Add(1)
+					go func(o closer) {
+						defer wg.Done()
+						<-start
+						o.close()
+					}(o)
+				}
+			}
+			for k := 0; k < r%16; k++ {
+				goruntime.Gosched()
+			}
+			close(start)
+			wg.Wait()
+			sched.Settle()
+			for _, o := range objs {
+				if !isClosed(o.done) {
+					problems = append(problems, fmt.Sprintf("a %s closed by eight goroutines at once is not done (round %d)", o.name, r))
+				}
+			}
+			if isClosed(src.Done()) {
+				problems = append(problems, "closing objects below the source stopped the source")
+			}
+		}
+		src.Stop()
+		sched.Settle()
+	})
+	c.Rep.Evaluations++
+	replay := map[string]interface{}{"scenario": what}
+	for _, p := range problems {
+		c.Violation("", p+" ["+what+"]", replay)
+	}
+	if dl != "" && len(problems) == 0 {
+		replay["deadlock"] = dl
+		c.Violation("", "goroutines left blocked (bubble deadlock): "+what, replay)
+	}
+	c.DistinctCase("concurrent-closes")
+}
